@@ -170,41 +170,86 @@ def slice_hyps(hyps, goal, ghosts):
     return [h for h, fs in zip(hyps, fams) if not fs or (fs & rel)]
 
 
+def _work_short(job):
+    idx, smt2, z3_ms, use_cvc5 = job
+    try:
+        st, be, dt, info = _z3_check(smt2, min(4000, z3_ms))
+        return idx, st, be, dt, info
+    except Exception as e:  # noqa
+        return idx, "error", "z3", 0.0, "%s: %s" % (type(e).__name__, e)
+
+
+def _pmap(fn, jobs, parallel):
+    if not jobs:
+        return []
+    if parallel and len(jobs) > 1:
+        return pool().map(fn, jobs, chunksize=1)
+    return [fn(j) for j in jobs]
+
+
 def discharge(obligs, z3_ms=None, use_cvc5=True, parallel=True):
-    """obligs: list of engine.Oblig.  Returns list of dict(name, kind, status, backend, time, info)."""
+    """obligs: list of engine.Oblig.  Returns list of dict(name, kind, status, backend, time, info).
+    Stages: (1) z3, 4 s, all hypotheses; (2) for contracts with many ghost arrays: z3 / cvc5 / z3 on the hypotheses sliced by ghost family;
+    (3) cvc5 then z3 with the full budget on all hypotheses."""
     z3_ms = z3_ms or Z3_TIMEOUT_MS
-    jobs = []
-    sliced = set()
     results = [None] * len(obligs)
+    smt = {}
+    jobs = []
     for i, o in enumerate(obligs):
         g = z3.simplify(o.goal) if z3.is_bool(o.goal) else o.goal
         if z3.is_true(g) and o.kind != "canary":
             results[i] = dict(name=o.name, kind=o.kind, status="discharged", backend="simplifier", time=0.0, info=None, line=o.line)
             continue
-        gh = getattr(o, "ghosts", None)
-        if gh and len(gh) >= 6 and o.kind != "canary":
-            hy = slice_hyps(o.hyps, o.goal, gh)
-            jobs.append((i, to_smt2(hy, o.goal), z3_ms, use_cvc5))
-            sliced.add(i)
-        else:
-            jobs.append((i, to_smt2(o.hyps, o.goal), z3_ms, use_cvc5))
-    if jobs:
-        if parallel and len(jobs) > 1:
-            res = pool().map(_work, jobs, chunksize=1)
-        else:
-            res = [_work(j) for j in jobs]
-        retry = []
+        smt[i] = to_smt2(o.hyps, o.goal)
+        jobs.append((i, smt[i], z3_ms, use_cvc5))
+
+    def record(res, add=True):
+        pending = []
         for idx, st, be, dt, info in res:
             o = obligs[idx]
-            results[idx] = dict(name=o.name, kind=o.kind, status=st, backend=be, time=round(dt, 4), info=info, line=o.line)
-            if idx in sliced and st != "discharged":
-                retry.append((idx, to_smt2(o.hyps, o.goal), z3_ms, use_cvc5))   # sliced attempt inconclusive: all hypotheses
-        if retry:
-            res2 = pool().map(_work, retry, chunksize=1) if parallel and len(retry) > 1 else [_work(j) for j in retry]
-            for idx, st, be, dt, info in res2:
-                o = obligs[idx]
-                results[idx] = dict(name=o.name, kind=o.kind, status=st, backend=be, time=round(dt + results[idx]["time"], 4), info=info, line=o.line)
+            prev = results[idx]["time"] if (results[idx] and add) else 0.0
+            results[idx] = dict(name=o.name, kind=o.kind, status=st, backend=be, time=round(dt + prev, 4), info=info, line=o.line)
+            if st == "unknown":
+                pending.append(idx)
+        return pending
+
+    pending = record(_pmap(_work_short, jobs, parallel), add=False)
+    if z3_ms <= 4000 and not use_cvc5:
+        return results
+    min_gh = int(os.environ.get("PYVC_SLICE_MIN_GHOSTS", "6"))
+    sl_jobs = []
+    for idx in pending:
+        o = obligs[idx]
+        gh = getattr(o, "ghosts", None)
+        if gh and len(gh) >= min_gh and o.kind != "canary":
+            hy = slice_hyps(o.hyps, o.goal, gh)
+            if len(hy) < len(o.hyps):
+                sl_jobs.append((idx, to_smt2(hy, o.goal), z3_ms, use_cvc5))
+    if sl_jobs:
+        still = set(record(_pmap(_work, sl_jobs, parallel)))
+        pending = [i for i in pending if i in still or i not in {j[0] for j in sl_jobs}]
+    record(_pmap(_work_full, [(i, smt[i], z3_ms, use_cvc5) for i in pending], parallel))
     return results
+
+
+def _work_full(job):
+    """all hypotheses, after the short z3 attempt failed: cvc5, then z3 with the full budget"""
+    idx, smt2, z3_ms, use_cvc5 = job
+    try:
+        total = 0.0
+        info2 = "(cvc5 skipped)"
+        if use_cvc5:
+            st2, be2, dt2, info2 = _cvc5_check(smt2, CVC5_TIMEOUT_S)
+            total += dt2
+            if st2 != "unknown":
+                return idx, st2, be2, total, info2
+        st3, be3, dt3, info3 = _z3_check(smt2, z3_ms)
+        total += dt3
+        if st3 != "unknown":
+            return idx, st3, be3, total, info3
+        return idx, "unknown", "z3+cvc5", total, "z3: %s; cvc5: %s" % (info3, info2)
+    except Exception as e:  # noqa
+        return idx, "error", "z3", 0.0, "%s: %s" % (type(e).__name__, e)
 
 
 def model_for(oblig, timeout_ms=20000):
